@@ -1,6 +1,7 @@
 package main
 
 import (
+	"encoding/hex"
 	"bufio"
 	"fmt"
 	"math/rand"
@@ -107,6 +108,10 @@ func c20Queries(rng *rand.Rand) c20Query {
 		{sql: "SELECT id, v + w AS s FROM stream", kind: "expr"},
 		{sql: "SELECT *, v / 4 AS r FROM stream", kind: "expr"},
 		{sql: "SELECT id, k, unnest(l) AS e FROM stream", kind: "unnest"},
+		{sql: "SELECT id, array_remove(tags, 'x') AS ar FROM stream", kind: "expr"},
+		{sql: "SELECT id, array_distinct(tags) AS ad, array_length(tags) AS al FROM stream", kind: "expr"},
+		{sql: "SELECT id, abs(v - lag(v)) AS d FROM stream", kind: "analytic-select", analytic: []string{"d"}},
+		{sql: "SELECT id, sqrt(lag(v)) AS sq, k FROM stream", kind: "analytic-select", analytic: []string{"sq"}},
 		{sql: "SELECT id, changed_cols('c_', true, v, k) FROM stream", kind: "analytic-multi", analytic: []string{"changed_cols('c_', true, v, k)"}, multi: []bool{true}},
 		{sql: "SELECT id, k, changed_cols('c_', true, v) FROM stream", kind: "analytic-multi", analytic: []string{"changed_cols('c_', true, v)"}, multi: []bool{true}},
 		{sql: "SELECT id, CASE WHEN v > 5 THEN 'hi' WHEN w > 5 THEN 'mid' ELSE 'lo' END AS r FROM stream", kind: "expr"},
@@ -200,6 +205,8 @@ func c20Row(rng *rand.Rand, id int) map[string]interface{} {
 	if rng.Intn(2) == 0 {
 		row["m"] = c05GenValue(rng, 2)
 	}
+	// a slice of the caller's: functions that filter / reorder arrays must not do it in place
+	row["tags"] = []interface{}{"p", "x", "q", "x", "r"}[:2+rng.Intn(4)]
 	if rng.Intn(3) == 0 {
 		row["l"] = []interface{}{c05GenValue(rng, 1), map[string]interface{}{"x": c05GenScalar(rng)}}
 	}
@@ -503,6 +510,17 @@ func c20RunSolo(q c20Query, rows []map[string]interface{}) ([]string, bool) {
 
 // c20RunSoloFresh: the "alone" baseline in a FRESH PROCESS (the harness binary re-executes itself), so that
 // process-wide state no reset hook knows about cannot leak from an earlier run into the baseline.
+// c20ProtoLines: the protocol lines of a helper process (prefix "@@ "), whatever else it printed
+func c20ProtoLines(outb []byte) []string {
+	var lines []string
+	for _, l := range strings.Split(string(outb), "\n") {
+		if strings.HasPrefix(l, "@@ ") {
+			lines = append(lines, strings.TrimRight(l[3:], "\r"))
+		}
+	}
+	return lines
+}
+
 func c20RunSoloFresh(q c20Query, rows []map[string]interface{}) ([]string, bool) {
 	exe, err := os.Executable()
 	if err != nil {
@@ -516,13 +534,17 @@ func c20RunSoloFresh(q c20Query, rows []map[string]interface{}) ([]string, bool)
 	if err != nil {
 		return []string{"solo-process-failed"}, false
 	}
-	lines := strings.Split(strings.TrimRight(string(outb), "\n"), "\n")
+	lines := c20ProtoLines(outb)
 	if len(lines) == 0 {
 		return nil, false
 	}
 	ok := lines[0] == "ok"
 	var out []string
 	for _, l := range lines[1:] {
+		if _, err := hex.DecodeString(l); err != nil && l != "-" {
+			fmt.Fprintf(os.Stderr, "c20solo: undecodable output of the solo process:\n%s\n", outb)
+			return []string{"solo-output-undecodable"}, false
+		}
 		out = append(out, unhx(l))
 	}
 	return out, ok
@@ -538,13 +560,14 @@ func init() {
 		q := c20ParseQuery(sql, args[1:sep])
 		rows, _ := c20DecRows(args[sep+1:])
 		out, ok := c20RunSolo(q, rows)
+		// the engine may log to stdout: every protocol line carries a prefix
 		if ok {
-			fmt.Fprintln(w, "ok")
+			fmt.Fprintln(w, "@@ ok")
 		} else {
-			fmt.Fprintln(w, "not-quiescent")
+			fmt.Fprintln(w, "@@ not-quiescent")
 		}
 		for _, l := range out {
-			fmt.Fprintln(w, hx(l))
+			fmt.Fprintln(w, "@@ "+hx(l))
 		}
 	}
 }
@@ -597,7 +620,7 @@ func c20RunPairedFresh(qa, qb c20Query, ra, rb []map[string]interface{}, bits st
 	if err != nil {
 		return []string{"pair-process-failed"}, []string{"pair-process-failed"}, false
 	}
-	lines := strings.Split(strings.TrimRight(string(outb), "\n"), "\n")
+	lines := c20ProtoLines(outb)
 	ok = len(lines) > 0 && lines[0] == "ok"
 	cur := &pa
 	for _, l := range lines[1:] {
@@ -628,16 +651,16 @@ func init() {
 		rb, rest := c20DecRows(rest)
 		pa, pb, okA, okB := c20RunPaired(qa, qb, ra, rb, rest[0])
 		if okA && okB {
-			fmt.Fprintln(w, "ok")
+			fmt.Fprintln(w, "@@ ok")
 		} else {
-			fmt.Fprintln(w, "not-quiescent")
+			fmt.Fprintln(w, "@@ not-quiescent")
 		}
 		for _, l := range pa {
-			fmt.Fprintln(w, hx(l))
+			fmt.Fprintln(w, "@@ "+hx(l))
 		}
-		fmt.Fprintln(w, "--")
+		fmt.Fprintln(w, "@@ --")
 		for _, l := range pb {
-			fmt.Fprintln(w, hx(l))
+			fmt.Fprintln(w, "@@ "+hx(l))
 		}
 	}
 }
